@@ -138,7 +138,11 @@ impl<'g> Gen<'g> {
         match ty {
             PType::Ident => (format!("I{}", self.next()), TKind::Ident),
             PType::Str => (format!("\"S{}\"", self.next()), TKind::Str),
-            PType::Float => (format!("{}.5", self.next()), TKind::Float),
+            // (every other value is not representable in single precision)
+            PType::Float => {
+                let n = self.next();
+                (format!("{n}.{}", if n % 2 == 0 { 5 } else { 1 }), TKind::Float)
+            }
             PType::Enum(n) => {
                 let ed = self.g.enumdef(n);
                 let it = ed
